@@ -3,7 +3,7 @@
    chunks (any number of write calls), the fault may hit any write call or the final
    move.  Atomicity of the rename itself is an assumption about the platform. *)
 From Coq Require Import String List Arith.
-From Prov Require Import Str StrProofs IO IOProofs.
+From Prov Require Import Str StrProofs IO IOProofs IOLinks IOLinksProofs.
 Import ListNotations.
 Open Scope string_scope.
 
@@ -55,4 +55,39 @@ Proof. vm_compute. reflexivity. Qed.
 Lemma C17_old_path_refuted :
   let old_path name := url_path (snd (split_netloc (snd (split_scheme name)))) in
   map old_path ["a#b.json"; "c d?e;f.json"; "x:y.json"] = ["a"; "c d"; "y.json"].
+Proof. vm_compute. reflexivity. Qed.
+
+(* ------------------------------------------------------------------ destinations that are symbolic links (IOLinks.v)
+   The same protocol over a file system whose entries are files or links, reading a name follows links, and the last
+   step is os.rename (temp file and destination on one file system), which replaces the destination's entry. *)
+Theorem C17_links_exact : forall fs name tmp cs path fs' ok,
+  dest_path name = Some path -> tmp <> path -> lget fs tmp = None ->
+  serialize_to_l fs name tmp cs NoFault = (fs', ok) ->
+  ok = true /\ lget fs' path = Some (EFile (cat cs)) /\ (forall fuel, lread fuel fs' path = Some (cat cs)) /\
+  (forall p, p <> path -> lget fs' p = lget fs p).
+Proof. exact serialize_links_exact. Qed.
+Print Assumptions C17_links_exact.
+
+Theorem C17_links_target_kept : forall fs name tmp cs path q fs' ok,
+  dest_path name = Some path -> tmp <> path -> lget fs tmp = None ->
+  lget fs path = Some (ELink q) -> q <> path ->
+  serialize_to_l fs name tmp cs NoFault = (fs', ok) ->
+  lget fs' path = Some (EFile (cat cs)) /\ lget fs' q = lget fs q.
+Proof. exact serialize_links_target_kept. Qed.
+Print Assumptions C17_links_target_kept.
+
+Theorem C17_links_atomic : forall fs name tmp cs path f fs' ok,
+  dest_path name = Some path -> tmp <> path ->
+  (f = FaultAtMove \/ exists k, f = FaultAtWrite k /\ k < length cs) ->
+  serialize_to_l fs name tmp cs f = (fs', ok) ->
+  ok = false /\ (forall p, p <> tmp -> lget fs' p = lget fs p).
+Proof. exact serialize_links_atomic. Qed.
+Print Assumptions C17_links_atomic.
+
+(* non-vacuity: the destination is a link to a file beside it; afterwards the name is a file holding the document,
+   the file the link led to keeps its old content *)
+Example C17_links_compute :
+  serialize_to_l [("sub/out.json", ELink "sub/data.json"); ("sub/data.json", EFile "OLD")] "sub/out.json" "tmp1"
+                 ["{"; "doc"; "}"] NoFault
+  = ([("sub/out.json", EFile "{doc}"); ("sub/data.json", EFile "OLD")], true).
 Proof. vm_compute. reflexivity. Qed.
